@@ -15,7 +15,7 @@ const key = "echo/middleware.go:SentinelMiddleware.func1.func1"
 
 func main() {
 	probe.Init()
-	for _, cs := range probe.Plan() {
+	for cs, more := probe.Next(); more; cs, more = probe.Next() {
 		custom, sc := cs.Custom, cs.Sc
 		probe.SetCase(cs)
 		// default resource name: METHOD:route
